@@ -5,7 +5,10 @@ import (
 	"encoding/binary"
 	"fmt"
 	"net"
+	"reflect"
 	"runtime"
+	"strings"
+	"sync"
 	"testing"
 
 	"golang.org/x/net/internal/iana"
@@ -1065,6 +1068,262 @@ func c60CheckCtlReuse(w *vx.W, x c60CtlReuse) {
 	w.Outcome(fmt.Sprintf("ctl4-reuse/n=%d", len(x.Seq)))
 }
 
+// ---- buffer reuse: a parsed value must own its bytes
+//
+// The dual of the reused receiver: one reused BUFFER (the usual receive loop
+// with a single packet / ancillary-data buffer). Message A is parsed from the
+// buffer into a FRESH value and a deep snapshot of that value is taken; then
+// the buffer is overwritten with message B's bytes (and B parsed from it into
+// another fresh value), and finally zeroed. "Survives marshal and parse" is a
+// statement about the parsed value, so the value parsed for A must still be
+// what it was right after its Parse, whatever happens to the caller's buffer.
+
+type c60BufReuse struct {
+	Entry string `json:"parse_entry_point"`
+	A     int    `json:"first_message"`  // index into the entry point's wire alphabet
+	B     int    `json:"second_message"` // overwrites the buffer A was parsed from
+}
+
+type c60Wire struct {
+	b     []byte
+	proto int    // ParseMessage only
+	desc  string // what was marshalled
+	err   error
+}
+
+var c60BufEntries = []string{"ipv6.ControlMessage.Parse", "ipv4.ControlMessage.Parse", "ipv4.Header.Parse", "ipv4.ParseHeader", "icmp.ParseIPv4Header", "icmp.ParseMessage"}
+
+var (
+	c60BufOnce  sync.Once
+	c60BufWires map[string][]c60Wire
+)
+
+// c60BufICMPCases is the ParseMessage alphabet: per family, every body kind,
+// and for the kinds with objects every extension combination of the "icmp"
+// part (data of 129 octets, so that padded and unpadded datagrams occur).
+func c60BufICMPCases() []c60Case {
+	var out []c60Case
+	for _, v6 := range []bool{false, true} {
+		add := func(x c60Case) {
+			x.V6, x.Psh = v6, v6
+			out = append(out, x)
+		}
+		add(c60Case{Kind: "echo", A: 1, B: 2, N: 4, Pat: 0})
+		add(c60Case{Kind: "echoreply", A: 2, B: 1, N: 129, Pat: 2})
+		add(c60Case{Kind: "raw", N: 4, Pat: 0})
+		if v6 {
+			add(c60Case{Kind: "toobig", A: 3, N: 129, Pat: 0})
+		}
+		for e := range c60ReqExts() {
+			add(c60Case{Kind: "xreq", A: 1, B: 4, Ext: e})
+		}
+		add(c60Case{Kind: "xrep", A: 1, B: 7, N: 1, Pat: 2})
+		for e := range c60ErrExts(v6) {
+			add(c60Case{Kind: "dst", Code: 1, N: 129, Pat: 0, Ext: e})
+		}
+		add(c60Case{Kind: "time", N: 4, Pat: 2})
+		add(c60Case{Kind: "time", N: 4, Pat: 2, Ext: 3})
+		add(c60Case{Kind: "param", A: 1, N: 4, Pat: 0})
+		if !v6 {
+			add(c60Case{Kind: "param", A: 1, N: 4, Pat: 0, Ext: 1})
+		}
+	}
+	return out
+}
+
+func c60BufAlphabets() map[string][]c60Wire {
+	c60BufOnce.Do(func() {
+		m := map[string][]c60Wire{}
+		for _, y := range c60CtlAlphabet(true) {
+			cm := &ipv6.ControlMessage{TrafficClass: c60CtlInts[y.TC], HopLimit: c60CtlInts[y.Hop], IfIndex: c60CtlIf[y.If]}
+			if y.Addr == 1 {
+				cm.Src = c60V6IP()
+			}
+			m["ipv6.ControlMessage.Parse"] = append(m["ipv6.ControlMessage.Parse"], c60Wire{b: cm.Marshal(), desc: fmt.Sprintf("%+v", y)})
+		}
+		// ipv4: Marshal fills ifindex and spec_dst of the in_pktinfo object; the
+		// address Parse reads (ipi_addr, the last field of the object, written
+		// by the kernel on receive) is given here directly: absent / two values.
+		hdr := 12 + 4*int(^uint(0)>>63) // sizeof(struct cmsghdr) on Linux
+		for _, y := range c60CtlAlphabet(false) {
+			for _, addr := range [][]byte{nil, {192, 0, 2, 9}, {255, 255, 255, 254}} {
+				cm := &ipv4.ControlMessage{IfIndex: c60CtlIf[y.If]}
+				if y.Addr == 1 {
+					cm.Src = net.IPv4(192, 0, 2, 1)
+				}
+				b := cm.Marshal()
+				if addr != nil && len(b) >= hdr+12 {
+					copy(b[hdr+8:hdr+12], addr)
+				}
+				m["ipv4.ControlMessage.Parse"] = append(m["ipv4.ControlMessage.Parse"], c60Wire{b: b, desc: fmt.Sprintf("%+v ipi_addr=%v", y, addr)})
+			}
+		}
+		for _, hx := range c60ReuseHdrs() {
+			b, err := c60MkHdr(hx).Marshal()
+			wire := c60Wire{b: append(append([]byte(nil), b...), 0xee, 0xee), desc: fmt.Sprintf("%+v", hx), err: err}
+			for _, e := range []string{"ipv4.Header.Parse", "ipv4.ParseHeader", "icmp.ParseIPv4Header"} {
+				m[e] = append(m[e], wire)
+			}
+		}
+		for _, x := range c60BufICMPCases() {
+			var psh []byte
+			proto := iana.ProtocolICMP
+			if x.V6 {
+				proto = iana.ProtocolIPv6ICMP
+				psh = IPv6PseudoHeader(net.ParseIP("fe80::1"), net.ParseIP("ff02::1"))
+			}
+			b, err := x.message().Marshal(psh)
+			m["icmp.ParseMessage"] = append(m["icmp.ParseMessage"], c60Wire{b: b, proto: proto, desc: fmt.Sprintf("%+v", x), err: err})
+		}
+		c60BufWires = m
+	})
+	return c60BufWires
+}
+
+// c60BufParse parses b through the named entry point into a fresh value.
+func c60BufParse(entry string, proto int, b []byte) (any, error) {
+	switch entry {
+	case "ipv6.ControlMessage.Parse":
+		g := new(ipv6.ControlMessage)
+		return g, g.Parse(b)
+	case "ipv4.ControlMessage.Parse":
+		g := new(ipv4.ControlMessage)
+		return g, g.Parse(b)
+	case "ipv4.Header.Parse":
+		g := new(ipv4.Header)
+		return g, g.Parse(b)
+	case "ipv4.ParseHeader":
+		return ipv4.ParseHeader(b)
+	case "icmp.ParseIPv4Header":
+		return ParseIPv4Header(b)
+	}
+	return ParseMessage(proto, b)
+}
+
+// c60Dump renders everything reachable from v (through pointers, interfaces,
+// structs, slices) into a string that shares no memory with v: the snapshot.
+func c60Dump(sb *strings.Builder, v reflect.Value) {
+	switch v.Kind() {
+	case reflect.Pointer, reflect.Interface:
+		if v.IsNil() {
+			sb.WriteString("nil")
+			return
+		}
+		if v.Kind() == reflect.Interface {
+			sb.WriteString(v.Elem().Type().String())
+		}
+		sb.WriteString("&")
+		c60Dump(sb, v.Elem())
+	case reflect.Struct:
+		sb.WriteString("{")
+		for i := 0; i < v.NumField(); i++ {
+			sb.WriteString(v.Type().Field(i).Name + ":")
+			c60Dump(sb, v.Field(i))
+			sb.WriteString(" ")
+		}
+		sb.WriteString("}")
+	case reflect.Slice, reflect.Array:
+		if v.Kind() == reflect.Slice && v.IsNil() {
+			sb.WriteString("nil")
+			return
+		}
+		sb.WriteString("[")
+		for i := 0; i < v.Len(); i++ {
+			c60Dump(sb, v.Index(i))
+			sb.WriteString(" ")
+		}
+		sb.WriteString("]")
+	case reflect.String:
+		fmt.Fprintf(sb, "%q", v.String())
+	case reflect.Bool:
+		fmt.Fprintf(sb, "%v", v.Bool())
+	case reflect.Int, reflect.Int8, reflect.Int16, reflect.Int32, reflect.Int64:
+		fmt.Fprintf(sb, "%d", v.Int())
+	case reflect.Uint, reflect.Uint8, reflect.Uint16, reflect.Uint32, reflect.Uint64, reflect.Uintptr:
+		fmt.Fprintf(sb, "%d", v.Uint())
+	default:
+		fmt.Fprintf(sb, "<!unfollowed-kind %s>", v.Kind())
+	}
+}
+
+func c60Snapshot(v any) string {
+	var sb strings.Builder
+	c60Dump(&sb, reflect.ValueOf(v))
+	return sb.String()
+}
+
+func c60GenBufReuse(yield func(c60BufReuse) bool) {
+	al := c60BufAlphabets()
+	for _, e := range c60BufEntries {
+		n := len(al[e])
+		for a := 0; a < n; a++ {
+			for b := 0; b < n; b++ {
+				if !yield(c60BufReuse{Entry: e, A: a, B: b}) {
+					return
+				}
+			}
+		}
+	}
+}
+
+func c60CheckBufReuse(w *vx.W, x c60BufReuse) {
+	al := c60BufAlphabets()[x.Entry]
+	a, b := al[x.A], al[x.B]
+	tag := map[string]string{"ipv6.ControlMessage.Parse": "ctl6", "ipv4.ControlMessage.Parse": "ctl4", "ipv4.Header.Parse": "ipv4hdr-parse",
+		"ipv4.ParseHeader": "ipv4hdr-parseheader", "icmp.ParseIPv4Header": "icmp-parseipv4header", "icmp.ParseMessage": "icmp-parsemessage"}[x.Entry]
+	sig := func(s string) string { return "C60/buffer-reuse/" + tag + "/" + s }
+	if a.err != nil || b.err != nil || len(a.b) == 0 || len(b.b) == 0 {
+		w.Failf(sig("marshal-error"), "%+v: marshalling %s / %s: %v / %v (%d / %d bytes)", x, a.desc, b.desc, a.err, b.err, len(a.b), len(b.b))
+		return
+	}
+	n := len(a.b)
+	if len(b.b) > n {
+		n = len(b.b)
+	}
+	buf := make([]byte, n) // the one buffer of the receive loop
+	copy(buf, a.b)
+	va, err := c60BufParse(x.Entry, a.proto, buf[:len(a.b)])
+	if err != nil {
+		w.Failf(sig("parse-error"), "%+v: %s of %s: %v", x, x.Entry, a.desc, err)
+		return
+	}
+	snap := c60Snapshot(va)
+	if strings.Contains(snap, "<!unfollowed-kind") {
+		w.Failf(sig("harness-snapshot-incomplete"), "%+v: the snapshot renderer met a kind it does not follow: %s", x, snap)
+		return
+	}
+	// the same bytes in a buffer nobody touches again must parse to the same value
+	vref, err := c60BufParse(x.Entry, a.proto, append([]byte(nil), a.b...))
+	if err != nil || c60Snapshot(vref) != snap {
+		w.Failf(sig("parse-not-deterministic"), "%+v: parsing equal bytes twice gave %s and %s (err %v)", x, snap, c60Snapshot(vref), err)
+		return
+	}
+	copy(buf, b.b)
+	if _, err := c60BufParse(x.Entry, b.proto, buf[:len(b.b)]); err != nil {
+		w.Failf(sig("parse-error"), "%+v: %s of %s: %v", x, x.Entry, b.desc, err)
+		return
+	}
+	if after := c60Snapshot(va); after != snap {
+		w.Failf(sig("parsed-value-changed"), "%+v: %s parsed %s from a buffer into a fresh value: %s; after the buffer was overwritten with the bytes of %s (and those parsed into another fresh value) the first parsed value reads %s: it points into the caller's buffer",
+			x, x.Entry, a.desc, snap, b.desc, after)
+		return
+	}
+	clear(buf)
+	if after := c60Snapshot(va); after != snap {
+		w.Failf(sig("parsed-value-changed"), "%+v: %s parsed %s from a buffer into a fresh value: %s; after the buffer was zeroed the parsed value reads %s: it points into the caller's buffer",
+			x, x.Entry, a.desc, snap, after)
+		return
+	}
+	w.Nontrivial()
+	rel := "same-length"
+	if len(b.b) < len(a.b) {
+		rel = "shorter-second"
+	} else if len(b.b) > len(a.b) {
+		rel = "longer-second"
+	}
+	w.Outcome("buffer-reuse/" + tag + "/" + rel)
+}
+
 func TestVerif_C60(t *testing.T) {
 	vx.Run(t, "C60", func(c *vx.Ctx) {
 		reuseLen := vx.Pick(c, 3, 4)    // headers parsed into one ipv4.Header
@@ -1073,6 +1332,7 @@ func TestVerif_C60(t *testing.T) {
 		c.Rule("ipv4hdr: the product of TOS/TTL/Protocol {0,1,255}, TotalLen/ID/Checksum {0,1,0xffff}, Flags {0,MF,DF,MF|DF,reserved}, FragOff {0,1,0x1fff}, Src/Dst {0.0.0.0,1.2.3.4,255.255.255.255}, options length {0,4,8,40}; Marshal then ParseHeader (with payload bytes following) must give back every field")
 		c.Rule(fmt.Sprintf("ipv4hdr-reuse (history dependence of (*Header).Parse): every sequence of 1..%d headers over the 21-header alphabet {three field profiles: all fields at their low / middle / high boundary value} x options length {0,4,8,40} x two option contents, each marshalled and parsed in order into ONE Header whose state before the first Parse is {zero value, Options of length 0 and capacity 40, Options holding 40 octets}; after the last Parse the receiver must equal the last header field by field (so len(Options) = Len-20) and re-marshal to the bytes that were parsed; non-trivial = it did. Failures on options are classified by the last options length against the longest options area the receiver held before (none-after-some, shorter-after-longer, same, longer-after-shorter)", reuseLen))
 		c.Rule(fmt.Sprintf("ctl-reuse: every sequence of 2..%d control messages of one family with a non-empty encoding (53 for ipv6, 5 for ipv4, i.e. every subset of the wire objects traffic class / hop limit / packet info) marshalled and parsed in order into ONE ControlMessage; every field the last message carries on the wire must hold the last message's value", ctlReuseLen))
+		c.Rule("buffer-reuse (a parsed value owns its bytes): for every parse entry point the other parts exercise {ipv6.ControlMessage.Parse, ipv4.ControlMessage.Parse, ipv4.Header.Parse, ipv4.ParseHeader, icmp.ParseIPv4Header, icmp.ParseMessage} and every ordered pair (A,B) over that entry point's wire alphabet (ipv6: the 53 non-empty control messages; ipv4: the 5 non-empty control messages x packet-info receive address {unset, 192.0.2.9, 255.255.255.254}; headers: the 21-header reuse alphabet; ParseMessage: per family every body kind and every extension combination of the icmp part on one representative each), A's bytes are placed in a buffer and parsed into a FRESH value, a deep snapshot of that value is taken, the SAME buffer is overwritten with B's bytes (parsed into another fresh value) and then zeroed; after each step the value parsed for A must equal its snapshot, and parsing an untouched copy of A's bytes must give the same snapshot; non-trivial = it did")
 		c.Rule("ctl: ipv6.ControlMessage TrafficClass/HopLimit {0,1,255} x IfIndex {0,1,2^31-1} x Src {unset,set} and ipv4.ControlMessage IfIndex x Src: Marshal then Parse")
 		c.Assume("inputs are canonical: extension Class/Type fields equal the values the marshaller writes (InterfaceInfo.Type = the attribute bits of the populated fields, name/MTU only together with an interface index, address family matching the protocol, IPv6 zone = interface name when a name is present), interface names <= 63 bytes without NUL, MPLS label/TC within 20/3 bits, 8/16-bit fields within range, original datagram <= 1020 octets")
 		c.Assume("error messages without extensions whose original datagram is >= 136 octets and whose octet 128 has the high nibble 2 are excluded: RFC 4884 §5.5 backward-compatibility parsing (and the package) deliberately treats such a message as carrying an extension structure at offset 128")
@@ -1095,6 +1355,13 @@ func TestVerif_C60(t *testing.T) {
 			}
 			c60GenCtlReuse(ctlReuseLen, yield)
 		}, c60CheckCtlReuse)
+
+		vx.Enumerate(c, "buffer-reuse", vx.Opts{}, func(yield func(c60BufReuse) bool) {
+			if runtime.GOOS != "linux" {
+				return
+			}
+			c60GenBufReuse(yield)
+		}, c60CheckBufReuse)
 
 		vx.Enumerate(c, "ipv4hdr", vx.Opts{NoSample: true}, func(yield func(c60Hdr) bool) {
 			if runtime.GOOS != "linux" {
